@@ -138,6 +138,7 @@ type Scenario struct {
 	N, D  int // see vs.Config
 	Horizon time.Duration
 	Race  bool
+	SharedOnly bool
 	// Body builds fresh objects and runs the system; Check classifies the
 	// finished execution (outcome key, optional violation). Both share state
 	// through the closure that created the scenario.
@@ -169,7 +170,7 @@ func RunScenarios(prop string, scs []Scenario) {
 	start := time.Now()
 	var allStates map[uint64]struct{}
 	for i, sc := range scs {
-		cfg := vs.Config{P: sc.P, T: sc.T, N: sc.N, D: sc.D, Horizon: sc.Horizon, Shard: e.Shard, Shards: e.Shards, CountStates: true, Race: sc.Race}
+		cfg := vs.Config{P: sc.P, T: sc.T, N: sc.N, D: sc.D, Horizon: sc.Horizon, Shard: e.Shard, Shards: e.Shards, CountStates: true, Race: sc.Race, SharedOnly: sc.SharedOnly}
 		if !e.Deadline.IsZero() {
 			remain := time.Until(e.Deadline)
 			share := remain / time.Duration(len(scs)-i)
@@ -244,7 +245,7 @@ func replay(prop string, e Env, scs []Scenario) {
 		if sc.Name != rf.Scenario {
 			continue
 		}
-		cfg := vs.Config{P: sc.P, T: sc.T, N: sc.N, D: sc.D, Horizon: sc.Horizon, Race: sc.Race}
+		cfg := vs.Config{P: sc.P, T: sc.T, N: sc.N, D: sc.D, Horizon: sc.Horizon, Race: sc.Race, SharedOnly: sc.SharedOnly}
 		x := vs.Replay(cfg, rf.Choices, sc.Body)
 		for _, ev := range x.Trace {
 			fmt.Printf("%4d %-10s %-24s alt=%d %-28s t=%s\n", ev.N, ev.Thread, ev.Kind, ev.Alt, ev.Site, ev.Now)
